@@ -304,7 +304,36 @@ impl FunctionSignature {
         // FIXME: We check for intersecting stack parameter register, but not for intersecting nested parameters.
         // We should add a check for these to generate log messages (but probably without trying to merge such parameters)
         self.merge_intersecting_stack_parameters(&project.stack_pointer_register);
+        self.remove_nested_parameters_without_parent(project);
         self.check_for_unaligned_stack_params(&project.stack_pointer_register)
+    }
+
+    /// Remove nested parameters whose parent location is not a parameter (anymore),
+    /// e.g. because the parent stack parameter was merged with an intersecting one.
+    /// Later analyses assume that the parent of a nested parameter is itself a parameter.
+    fn remove_nested_parameters_without_parent(&mut self, project: &Project) {
+        let pointer_size = project.get_pointer_bytesize();
+        let stack_register_location =
+            AbstractLocation::Register(project.stack_pointer_register.clone());
+        loop {
+            let orphaned: Vec<AbstractLocation> = self
+                .parameters
+                .keys()
+                .filter(|param| match param.get_parent_location(pointer_size) {
+                    Ok((parent, _)) => {
+                        parent != stack_register_location && !self.parameters.contains_key(&parent)
+                    }
+                    Err(_) => false,
+                })
+                .cloned()
+                .collect();
+            if orphaned.is_empty() {
+                break;
+            }
+            for param in orphaned {
+                self.parameters.remove(&param);
+            }
+        }
     }
 
     /// Return a log message for every unaligned stack parameter
